@@ -193,19 +193,28 @@ def inline_program(prog, level=1, force=()):
         if f.has_body and f.crate in WORKSPACE and f.key not in cand:
             expand(f, ())
             f._cache.clear()
-    if level >= 2:
-        from .combinators import expand_program
-        expand_program(prog)
-    # indirections and parameter objects introduced by the inlined code
     from .scalarise import normalise
     prog.known_adts = known_adts()
     prog.scalarised = {}
-    for f in prog.fns.values():
-        if f.has_body and f.crate in WORKSPACE and f.inlined:
-            nf, ns = normalise(f, prog)
-            if nf or ns:
-                prog.scalarised[f.key] = {'places_forwarded': nf, 'locals_split': len(ns)}
-                f._cache.clear()
+
+    def scalarise_all():
+        # indirections and parameter objects introduced by the inlined code
+        for f in prog.fns.values():
+            if f.has_body and f.crate in WORKSPACE and f.inlined:
+                nf, ns = normalise(f, prog)
+                if nf or ns:
+                    old = prog.scalarised.get(f.key, {'places_forwarded': 0, 'locals_split': 0})
+                    prog.scalarised[f.key] = {'places_forwarded': old['places_forwarded'] + nf, 'locals_split': old['locals_split'] + len(ns)}
+                    f._cache.clear()
+    if level >= 2:
+        from .combinators import expand_program
+        # a spliced closure may call another closure through a captured reference: that call becomes expandable only
+        # after the environment was scalarised
+        for _round in range(3):
+            if not expand_program(prog):
+                break
+            scalarise_all()
+    scalarise_all()
     _split_all(prog)
     for f in prog.fns.values():
         if f.has_body and f.crate in WORKSPACE and f.inlined:
